@@ -167,20 +167,29 @@ def r2(ctx: Ctx) -> None:
         ctx.report(f.where, "normalize-scale", "the scale is not min(max_span[i] / |x[i]|) over the movable entries with |x[i]| > tiny: after scaling "
                    "|x[i]| <= max_span[i] would not hold for every movable node", lineno=f.node.lineno)
     g = ctx.func(SPECALG, "spectral_layout_die")
-    cg = canon_function(g, ctx.model)
-    comps = atoms_of(cg, lambda x_: x_[0] == "comp" and x_[1] == "list" and contains(x_, ("g", "calculate_centroids")) or
-                     (x_[0] == "comp" and x_[1] == "list" and x_[2] and x_[2][0][0] == "ite"))
     ctx.site(g.where, "centroid step keeps the coordinate of fixed nodes")
-    ok = False
-    fx = ("p", 4)
-    cands = [(cp[2][0], cp[3][0][0]) for cp in comps]
-    # the normal form of a comprehension that is assigned: the loop collecting its elements
-    for lp in atoms_of(cg, lambda x_: x_[0] == "for" and len(x_) == 5 and len(x_[3]) == 1 and x_[3][0][0] == "expr" and x_[3][0][1][0] == "c"
-                       and x_[3][0][1][1][0] == "a" and x_[3][0][1][1][2] == "append" and len(x_[3][0][1][2]) == 1):
-        cands.append((lp[3][0][1][2][0], lp[1]))
-    for body, b in cands:
-        if body[0] == "ite" and body[1] == ("s", fx, b) and body[2][0] == "s" and body[2][2] == b and contains(body[2], "v") and body[3][0] == "s" and body[3][2] == b:
-            ok = True
+
+    def keeps_fixed(cg, fx) -> bool:
+        comps = atoms_of(cg, lambda x_: x_[0] == "comp" and x_[1] == "list" and contains(x_, ("g", "calculate_centroids")) or
+                         (x_[0] == "comp" and x_[1] == "list" and x_[2] and x_[2][0][0] == "ite"))
+        cands = [(cp[2][0], cp[3][0][0]) for cp in comps]
+        # the normal form of a comprehension that is assigned: the loop collecting its elements
+        for lp in atoms_of(cg, lambda x_: x_[0] == "for" and len(x_) == 5 and len(x_[3]) == 1 and x_[3][0][0] == "expr" and x_[3][0][1][0] == "c"
+                           and x_[3][0][1][1][0] == "a" and x_[3][0][1][1][2] == "append" and len(x_[3][0][1][2]) == 1):
+            cands.append((lp[3][0][1][2][0], lp[1]))
+        for body, b in cands:
+            if body[0] == "ite" and body[1] == ("s", fx, b) and body[2][0] == "s" and body[2][2] == b and contains(body[2], "v") and body[3][0] == "s" and body[3][2] == b:
+                return True
+        return False
+    ok = keeps_fixed(canon_function(g, ctx.model), ("p", 4))
+    if not ok:
+        # the iteration of one dimension cut out into a function of its own: the step is looked for there, 'fixed' being the
+        # parameter that receives spectral_layout_die's
+        from .common import new_helper_calls
+        for h, roles in new_helper_calls(ctx, g):
+            for hp_, gp_ in roles.items():
+                if gp_ == 4 and contains(canon_function(h, ctx.model), ("g", "calculate_centroids")):
+                    ok = ok or keeps_fixed(canon_function(h, ctx.model), ("p", hp_))
     if not ok:
         ctx.report(g.where, "centroid-fixed", "the centroid step does not keep coord[d][i] for fixed nodes", lineno=g.node.lineno)
     o = ctx.func(SPECALG, "orthogonalize")
